@@ -1248,7 +1248,7 @@ theorem tag_summary (banned : List Kind) (anc : List Up) (d : BDir) (kids : List
               rw [hx]; exact ⟨_, rfl⟩
             · rw [ht2]
               unfold descrStep
-              rw [getTag_updTag _ _ _ _ (fun _ => rfl), hg]
+              rw [getTag_updTag c _ _ (fun t => { t with descr := some text }) (fun _ => rfl), hg]
               have hn : (t.name == d.param "TagName") = true := by
                 have := (getTag_some hg).2; simp [this]
               simp only [Option.map_some, hn, if_true, Option.isSome_some]
